@@ -472,7 +472,10 @@ func (fr *Frame) convert(s *State, v *Val, to types.Type, pos token.Pos) *Val {
 			_ = fhi
 			return &Val{T: to, S: v.S}
 		}
-		if fr.vc.wrapping {
+		fb, _ := intBits(from)
+		tb, _ := intBits(to)
+		if fr.vc.wrapping || fb == tb {
+			// same width, different signedness: a reinterpretation of the same bits (two's complement), no loss
 			bits, signed := intBits(to)
 			m := pow2(bits)
 			if signed {
@@ -608,6 +611,18 @@ func (fr *Frame) evalMake(s *State, call *ast.CallExpr, t types.Type) *Val {
 	case *types.Slice:
 		ln := fr.eval(s, call.Args[1])
 		fr.vc.oblige(s, "make", fmt.Sprintf("(>= %s 0)", ln.S), call.Pos(), "make with negative length")
+		top := fr
+		for top.parent != nil {
+			top = top.parent
+		}
+		if top.contract != nil && top.contract.AllocBound != nil {
+			bound := top.evalClause(s, top.contract.AllocBound, call.Pos(), nil)
+			sz := ln.S
+			if len(call.Args) > 2 {
+				sz = fr.eval(s, call.Args[2]).S
+			}
+			fr.vc.oblige(s, "alloc", fmt.Sprintf("(<= %s %s)", sz, bound), call.Pos(), "allocation size exceeds the bound "+top.contract.AllocBound.Text)
+		}
 		if isByte(u.Elem()) {
 			if len(call.Args) > 2 {
 				c := fr.eval(s, call.Args[2])
